@@ -49,6 +49,12 @@ type LockRely struct {
 	Lo, Hi         int64
 }
 
+// LockInv: an invariant over the state a lock protects.
+type LockInv struct {
+	Lock, Pred string
+	ClosedOf   []string // channel-typed fields of the object whose closed state the lock also protects
+}
+
 type SpecFile struct {
 	Pkg       string
 	Path      string
@@ -59,6 +65,7 @@ type SpecFile struct {
 	Relies    map[string]string // "Type.field" -> relation
 	Guards    map[string]string // "Type.field" -> "Type.lock"
 	LockRelies []LockRely
+	LockInvs   []LockInv
 	Deterministic []string      // "Iface.Method" callbacks treated as deterministic functions
 	Lines     []string
 }
@@ -116,6 +123,29 @@ func ParseSpecFile(path string) (*SpecFile, error) {
 				lr.Ranged = true
 			}
 			sf.LockRelies = append(sf.LockRelies, lr)
+		case strings.HasPrefix(t, "lockinv "):
+			// lockinv Type.lock: predName [closed(chanField), ...]
+			// predName(obj) holds whenever the lock is free; it is assumed when the lock is taken (after the guarded
+			// fields, and the closed state of the listed channel fields, have been given arbitrary values) and must be
+			// re-established when the lock is released
+			rest := strings.TrimPrefix(t, "lockinv ")
+			parts := strings.SplitN(rest, ":", 2)
+			if len(parts) != 2 {
+				return nil, fmt.Errorf("%s:%d: bad lockinv", path, lineNos[i])
+			}
+			f := strings.Fields(strings.NewReplacer(",", " ").Replace(parts[1]))
+			if len(f) < 1 {
+				return nil, fmt.Errorf("%s:%d: bad lockinv", path, lineNos[i])
+			}
+			li := LockInv{Lock: strings.TrimSpace(parts[0]), Pred: f[0]}
+			for _, g := range f[1:] {
+				if strings.HasPrefix(g, "closed(") && strings.HasSuffix(g, ")") {
+					li.ClosedOf = append(li.ClosedOf, g[len("closed("):len(g)-1])
+				} else {
+					return nil, fmt.Errorf("%s:%d: bad lockinv item %q", path, lineNos[i], g)
+				}
+			}
+			sf.LockInvs = append(sf.LockInvs, li)
 		case strings.HasPrefix(t, "guards "):
 			// guards Type.lock: Type.f1, Type.f2
 			rest := strings.TrimPrefix(t, "guards ")
